@@ -1,12 +1,19 @@
 #!/bin/sh
 # tools/seedcheck.sh <seed dir containing patch.diff, demo.py> <Cxx> [more checks…]
-# confirms the demo (exit 0 unchanged / exit 1 changed) and runs the given checks against a scratch worktree
-D=$1; shift
-WT=/tmp/wt-seed-$$
+# confirms the demo (exit 0 unchanged / exit 1 changed) and runs the given checks against a scratch worktree of /repo.
+# The checks run from a private clone of /verif (HEAD + build output), so evidence/, replays/ and Generated/ of /verif
+# itself are never touched by a run against a changed tree, and concurrent seedchecks do not race.
+D=$(cd "$1" && pwd); shift
+WT=/tmp/wt-seed-$$; VC=/tmp/sc-verif-$$
 git -C /repo worktree add -q $WT HEAD || exit 2
 echo "== demo on unchanged tree"; (cd $D && PYTHONPATH=$WT timeout 600 /venv/bin/python -W ignore demo.py >/tmp/wt-seed-demo0-$$.log 2>&1; echo "exit=$?")
 if ! git -C $WT apply $D/patch.diff; then echo "PATCH DOES NOT APPLY"; git -C /repo worktree remove --force $WT; exit 2; fi
 echo "== demo on changed tree"; (cd $D && PYTHONPATH=$WT timeout 600 /venv/bin/python -W ignore demo.py >/tmp/wt-seed-demo1-$$.log 2>&1; echo "exit=$?"; tail -3 /tmp/wt-seed-demo1-$$.log)
 echo "== unit tests on changed tree"; (cd $WT && PYTHONPATH=$WT /venv/bin/python -m pytest -q -p no:cacheprovider --timeout=900 --continue-on-collection-errors -q tests 2>&1 | tail -1)
-for P in "$@"; do echo "== check $P"; MOKAPOT_REPO=$WT /verif/check $P 2>&1 | grep -v "^$" | tail -3; done
+SRC=${VERIF_SRC:-/verif}
+git clone -q $SRC $VC && cp -a $SRC/lean/.lake $VC/lean/.lake
+# uncommitted harness/lean work of the source tree is part of what is being tried out
+(cd $SRC && git diff --name-only HEAD; git -C $SRC ls-files --others --exclude-standard) | grep '^harness/\|^lean/MokapotVerif/\|^tools/' | while read f; do [ -f "$SRC/$f" ] && mkdir -p "$VC/$(dirname $f)" && cp "$SRC/$f" "$VC/$f"; done
+for P in "$@"; do echo "== check $P"; MOKAPOT_REPO=$WT $VC/check $P 2>&1 | grep -v "^$" | tail -3; done
+rm -rf $VC /tmp/wt-seed-demo0-$$.log /tmp/wt-seed-demo1-$$.log
 git -C /repo worktree remove --force $WT
